@@ -180,8 +180,10 @@ def check_tables(cx, hy, K, D, taus):
 
 
 @harness("C16", "builder_entry_points",
-         quick=[dict(depth=d, via=v) for d in (1, 3) for v in ("hierarchy", "propagator")],
-         thorough=[dict(depth=d, via=v) for d in (0, 1, 2, 3, 4, 6) for v in ("hierarchy", "propagator")],
+         quick=[dict(depth=d, via=v) for d in (1, 3) for v in ("hierarchy", "propagator")] +
+               [dict(depth=2, via="propagator", units="1/cm")],
+         thorough=[dict(depth=d, via=v) for d in (0, 1, 2, 3, 4, 6) for v in ("hierarchy", "propagator")] +
+                  [dict(depth=2, via=v, units=u) for v in ("hierarchy", "propagator") for u in ("1/cm", "eV")],
          functions=["quantarhei/builders/opensystem.py:OpenSystem.get_KTHierarchy",
                     "quantarhei/builders/opensystem.py:OpenSystem.get_KTHierarchyPropagator",
                     F + ":KTHierarchy.__init__", F + ":KTHierarchyPropagator.__init__"],
@@ -190,16 +192,19 @@ def check_tables(cx, hy, K, D, taus):
                "get_KTHierarchyPropagator(depth) satisfies the same table statements as above for the REQUESTED depth "
                "(1, 3; thorough 0-6), and its per-bath decay rates and coupling constants are those of the right bath",
          out="")
-def builder_entry_points(cx, depth, via):
+def builder_entry_points(cx, depth, via, units=None):
+    import contextlib
     from harness.common import build_aggregate
     import quantarhei as qr
     reorgs = [20.0, 35.0]
     agg = build_aggregate(cx, 2, Nt=4, reorgs=reorgs)
     with cx.concrete():
-        if via == "hierarchy":
-            hy = agg.get_KTHierarchy(depth=depth)
-        else:
-            hy = agg.get_KTHierarchyPropagator(depth=depth).hy
+        # with units=u the hierarchy is requested inside energy_units(u); its parameters are internal quantities
+        with (qr.energy_units(units) if units else contextlib.nullcontext()):
+            if via == "hierarchy":
+                hy = agg.get_KTHierarchy(depth=depth)
+            else:
+                hy = agg.get_KTHierarchyPropagator(depth=depth).hy
         sbi = agg.get_SystemBathInteraction()
         taus = [float(sbi.get_correlation_time(k)) for k in range(sbi.N)]
         lams = [float(sbi.get_reorganization_energy(k)) for k in range(sbi.N)]
@@ -309,3 +314,30 @@ def propagate_valid(cx, nbath, depth, N, L):
     for i in range(2):
         cx.prove_eq("trace[%d]" % i, numpy.trace(rhot.data[i]), 1)
         cx.prove_eq("hermitian[%d]" % i, rhot.data[i], numpy.conj(rhot.data[i].T))
+
+
+@harness("C16", "propagate_units_independent",
+         quick=[dict(units="1/cm")], thorough=[dict(units=u) for u in ("1/cm", "eV")],
+         functions=[F + ":KTHierarchyPropagator.propagate", F + ":KTHierarchyPropagator._ado_self_rhs",
+                    F + ":KTHierarchy.__init__", "quantarhei/builders/opensystem.py:OpenSystem.get_KTHierarchyPropagator"],
+         bound="a concrete dimer aggregate with baths, hierarchy depth 1, expansion order 2, arbitrary Hermitian initial "
+               "state (symbolic): the hierarchy built and propagated inside energy_units(u) gives the same stored "
+               "states as the one built and propagated outside",
+         out="")
+def propagate_units_independent(cx, units):
+    from harness.common import build_aggregate
+    import quantarhei as qr
+    agg = build_aggregate(cx, 2, Nt=4, reorgs=[20.0, 35.0])
+    N = agg.HamOp.dim
+    rho0 = cx.hermitian("rho", N)
+
+    def run():
+        with cx.concrete():
+            kp = agg.get_KTHierarchyPropagator(depth=1)
+            rhoi = qr.ReducedDensityMatrix(dim=N)
+        rhoi._data = rho0.copy()
+        return numpy.array(kp.propagate(rhoi, L=2).data[1]).copy()
+    outside = run()
+    with qr.energy_units(units):
+        inside = run()
+    cx.prove_eq("same_dynamics_inside_units_context", inside, outside, tol=1e-9)
